@@ -120,10 +120,18 @@ func checkMeta(m refMeta) (msg string, accepted, pointerInside bool) {
 	if r.CurrINFMatchesCurrHF() != match {
 		return fmt.Sprintf("CurrINFMatchesCurrHF = %v, reference %v", r.CurrINFMatchesCurrHF(), match), true, true
 	}
+	h := m.currHF
 	if !match {
+		// an info pointer that does not designate the segment of the current hop: advancing still moves
+		// to the next hop and to the segment that contains it
+		c := b
+		if err := c.IncPath(); h < total-1 && (err != nil || int(c.PathMeta.CurrHF) != h+1 || int(c.PathMeta.CurrINF) != m.infOf(h+1)) {
+			return fmt.Sprintf("IncPath from an info pointer outside the current hop's segment: err=%v meta=%+v, reference hop %d info %d", err, c.PathMeta, h+1, m.infOf(h+1)), true, true
+		} else if h == total-1 && (err == nil || c.PathMeta != b.PathMeta) {
+			return fmt.Sprintf("IncPath at the last hop: err=%v meta=%+v", err, c.PathMeta), true, true
+		}
 		return "", true, false
 	}
-	h := m.currHF
 	lastOfSeg := h+1 == total || m.infOf(h+1) != m.infOf(h)
 	firstOfSeg := h == 0 || m.infOf(h-1) != m.infOf(h)
 	if b.IsXover() != (lastOfSeg && h+1 < total) {
